@@ -880,7 +880,7 @@ fn run_case(c: &Case) -> Res {
             return res;
         }
     };
-    if c.shape != "none" && c.shape != "fixture" && in_props.is_empty() {
+    if c.shape != "none" && c.shape != "fixture" && c.shape != "signed" && in_props.is_empty() {
         res.trivial = Some("injected packet not found in the input".into());
         return res;
     }
@@ -1041,7 +1041,8 @@ fn run_case(c: &Case) -> Res {
             }
             ReadBack::Ok { state, .. } => {
                 outcome = "read-ok".into();
-                viol(&mut res, c.family, "read-ok-without-manifest", c.shape, format!("reader returned Ok({state}) for an asset with only a remote reference and fetching disabled"), json!({}));
+                let cause = if c.shape == "signed" && !c.embed { "stale-embedded-manifest-kept" } else { "read-ok-without-manifest" };
+                viol(&mut res, c.family, cause, c.shape, format!("reader returned Ok({state}) instead of RemoteManifestUrl for an asset signed remote-only (fetching disabled)"), json!({"c2pa_chunk_or_box_still_present": find_sub(&subject, b"c2pa", 0).is_some() || find_sub(&subject, b"C2PA", 0).is_some()}));
             }
             ReadBack::Panic(p) => {
                 outcome = "panic".into();
@@ -1092,6 +1093,12 @@ fn main() {
             let origin_fixture = !a.name.starts_with("tiny");
             subjects.push((fam, a.format, a.name.clone(), if origin_fixture { "fixture" } else { "none" }, a.bytes.clone()));
         }
+        // state "signed": the asset already carries an embedded manifest (produced by the SDK, workload only)
+        if let Some(a) = list.iter().find(|a| a.name.starts_with("tiny")) {
+            if let Some(b) = embedkit::builder_state(a, false) {
+                subjects.push((fam, a.format, format!("{}+signed", a.name), "signed", b));
+            }
+        }
         for shape in SHAPES.iter().filter(|s| **s != "none") {
             let xmp = shape_xmp(shape).unwrap();
             for variant in if *fam == "gif" { vec!["framed", "raw"] } else { vec![""] } {
@@ -1113,7 +1120,7 @@ fn main() {
     for s in &subjects {
         let heavy = s.2.starts_with("tiny");
         for fs in &singles {
-            if !(s.3 == "none" || s.3 == "attrs" || (s.3 == "fixture" && fs.len() == 1 && fs[0] == "query-amp")) {
+            if !(s.3 == "none" || s.3 == "attrs" || ((s.3 == "fixture" || s.3 == "signed") && (fs.is_empty() || fs[0] == "query-amp"))) {
                 continue;
             }
             if !heavy && !(fs.is_empty() || fs[0] == "query-amp") {
@@ -1122,7 +1129,7 @@ fn main() {
             let set = feats_of(fs);
             cases.push(Case { family: s.0, fmt: s.1, asset_name: s.2.clone(), shape: s.3, bytes: s.4.clone(), url: build_url(&set, &mut rng), feats: fs.clone(), embed: false, directed: true });
         }
-        if s.3 != "none" && s.3 != "attrs" && s.3 != "fixture" {
+        if s.3 != "none" && s.3 != "attrs" && s.3 != "fixture" && s.3 != "signed" {
             for fs in [vec![], vec!["query-amp"]] {
                 let set = feats_of(&fs);
                 cases.push(Case { family: s.0, fmt: s.1, asset_name: s.2.clone(), shape: s.3, bytes: s.4.clone(), url: build_url(&set, &mut rng), feats: fs.clone(), embed: false, directed: true });
